@@ -17,7 +17,7 @@ MATCH = 'traffic_weaver.match.integral_matching_reference_stretch'
 RFA = 'traffic_weaver.rfa.'
 
 
-def check_wiring(ctx, wm: WeaverModel):
+def check_wiring(ctx, wm: WeaverModel, recreate=True):
     ctx.rule('C02.1', 'Weaver.integral_match binds x <- self.x, y <- self.y, x_ref <- self.reference_x, y_ref <- self.reference_y, forwards both rule parameters '
                       'to the like-named parameters and stores the result to y only')
     ctx.rule('C02.2', 'Weaver.recreate_from_average instantiates rfa_class(self.x, self.y, n, **kwargs), stores both results of .rfa() to (x, y) in that order and '
@@ -47,9 +47,18 @@ def check_wiring(ctx, wm: WeaverModel):
     d = dict(zip(ps[len(ps) - len(a.defaults):], a.defaults))
     ctx.check(isinstance(d.get('reference_function_integral_method'), ast.Constant) and d['reference_function_integral_method'].value == 'rectangle', 'C02.1',
               "integral_match: the reference rule defaults to 'rectangle' (averages are exact rectangle integrals)", '', mf.fi.loc(), mf.fi.qualname, 'match-default')
+    if recreate:
+        check_recreate_wiring(ctx, wm)
+
+
+def check_recreate_wiring(ctx, wm: WeaverModel, rule='C02.2'):
+    ctx.rule(rule, 'Weaver.recreate_from_average instantiates rfa_class(self.x, self.y, n, **kwargs) with the caller\'s options unfiltered, stores both results of '
+                   '.rfa() to (x, y) in that order and touches neither the reference nor the original; the default strategy is a concrete subclass of AbstractRFA')
     mr = wm.methods.get('recreate_from_average')
+    if mr is None:
+        raise AnalysisError(f"{rule}: Weaver.recreate_from_average not found")
     ls = last_stores(mr)
-    ctx.check(sorted(ls) == ['x', 'y'], 'C02.2', 'recreate_from_average stores x and y only', f"stores {sorted(ls)}", mr.fi.loc(), mr.fi.qualname, 'rfa-frame')
+    ctx.check(sorted(ls) == ['x', 'y'], rule, 'recreate_from_average stores x and y only', f"stores {sorted(ls)}", mr.fi.loc(), mr.fi.qualname, 'rfa-frame')
     if 'x' in ls and 'y' in ls:
         vx, vy = ls['x'][-1].data['value'], ls['y'][-1].data['value']
         ok = isinstance(vx, Term) and vx.head == 'item' and isinstance(vy, Term) and vy.head == 'item' and veq(vx.args[0], vy.args[0]) \
@@ -60,14 +69,15 @@ def check_wiring(ctx, wm: WeaverModel):
             inst = call.args[0].args[0] if ok and isinstance(call.args[0], Term) and call.args[0].head == 'attr' and veq(call.args[0].args[1], Const('rfa')) else None
             ok = ok and isinstance(inst, Term) and inst.head == 'apply' and len(inst.args) == 4 and veq(inst.args[0], mr.params.get('rfa_class')) \
                 and same(inst.args[1], wm.fields['x']) and same(inst.args[2], wm.fields['y']) and veq(inst.args[3], mr.params.get('n')) \
-                and [k for k, _ in inst.kwargs] == ['**']
-        ctx.check(ok, 'C02.2', 'recreate_from_average: (x, y) <- rfa_class(self.x, self.y, n, **kwargs).rfa()', f"x = {show(vx, 240)}", mr.fi.loc(), mr.fi.qualname, 'rfa-call')
+                and [k for k, _ in inst.kwargs] == ['**'] and isinstance(inst.kwargs[0][1], Term) and inst.kwargs[0][1].head == 'param' \
+                and veq(inst.kwargs[0][1].args[0], Const('**kwargs'))       # the caller's options, unfiltered
+        ctx.check(ok, rule, 'recreate_from_average: (x, y) <- rfa_class(self.x, self.y, n, **kwargs).rfa()', f"x = {show(vx, 240)}", mr.fi.loc(), mr.fi.qualname, 'rfa-call')
     a = mr.fi.node.args
     ps = mr.fi.params()
     dflt = dict(zip(ps[len(ps) - len(a.defaults):], a.defaults)).get('rfa_class')
     r = ctx.prog.resolve_expr(mr.fi.module, dflt) if dflt is not None else None
     okd = r is not None and r[0] == 'class' and not ctx.prog.is_abstract(r[2]) and ctx.prog.cls(RFA + 'AbstractRFA') in ctx.prog.mro(r[2])
-    ctx.check(okd, 'C02.2', 'the default strategy is a concrete recreate-from-average class', ast.unparse(dflt) if dflt is not None else 'none', mr.fi.loc(), mr.fi.qualname,
+    ctx.check(okd, rule, 'the default strategy is a concrete recreate-from-average class', ast.unparse(dflt) if dflt is not None else 'none', mr.fi.loc(), mr.fi.qualname,
               'rfa-default')
 
 
